@@ -111,7 +111,10 @@ pub mod amt {
         a == 0.0 && a.is_sign_negative()
     }
     pub fn gen(r: &mut crate::prng::Prng) -> Amt {
-        const FIXED: [f64; 22] = [
+        // the library special-cases 0 (sign) and 1 (rate multiples): their
+        // neighbours in the amount type belong to the fixed set
+        const FIXED: [f64; 26] = [
+            0.9999999999999999, 1.0000000000000002, 5e-324, 0.9999999999999998,
             0.0, 1.0, 2.0, 7.5, 184.09, 0.1, 0.30000000000000004, 1e-7, 1e21,
             1e300, 5e-324, 2.2250738585072014e-308, f64::MAX, 123456789.12345679,
             0.5, 1.5, 2.5, 0.125, 99.995, 1e15, 4503599627370497.5, 0.045,
@@ -173,7 +176,8 @@ pub mod amt {
         false
     }
     pub fn gen(r: &mut crate::prng::Prng) -> Amt {
-        const FIXED: [(i64, u8); 18] = [
+        const FIXED: [(i64, u8); 22] = [
+            (999999999999999999, 18), (1000000000000000001, 18), (1, 18), (10, 1),
             (0, 0), (1, 0), (2, 0), (75, 1), (18409, 2), (1, 1), (1, 7), (5, 1),
             (15, 1), (25, 1), (125, 3), (99995, 3), (45, 3), (1, 18),
             (123456789123456789, 9), (i64::MAX, 0), (i64::MAX, 18), (1_000_000_000_000_000, 0),
